@@ -1,23 +1,36 @@
 (* Model of the text layer of stingray.cobol_parser (src/stingray/cobol_parser.py), as the code is now.
 
-   reference_format(source, replacing)   lines 71-117
-     non_empty      = filter(lambda line: line.rstrip(), source)
+   What the code IS is read from the source on every run (T1, harness/t1_text.py -> Gen/RefFormatParams.v);
+   this file says what each recognised construct MEANS.  With the source as it is now:
+
+   reference_format(source, replacing)
+     non_empty      = filter(lambda line: line.rstrip(), source)                         KeepNonEmpty (Rstrip V0)
      non_directive  = filter(lambda line: line.strip() not in the set EJECT SKIP1 SKIP2 SKIP3, non_empty)
+                                                                                          DropWords (Strip V0) ...
      indicator_line = ((line[6], line[7:72]) for line in non_directive if len(line) >= 7)
-     non_comment    = filter(lambda il: il[0] not in the set star, D, indicator_line)
+                                                                    KeepLong 7; Split 6 (Slice 7 (Some 72) V0)
+     non_comment    = filter(lambda il: il[0] not in the set star, D, indicator_line)    DropIndicators [42; 68]
      if replacing:  every text goes through replace_all (all pairs, in list order, str.replace)
+                                                                                          ReplaceTexts, replace_pairs 0
      indicator, line = next(it)          -- StopIteration inside a generator = RuntimeError
      for indicator, next_line in it:
          if indicator is the minus sign: line += next_line          -- nothing is stripped
-         else: if line.strip().startswith(COPY): raise ValueError
+                                                                    cont_indicator 45, cont_join (Cat V0 V1)
+         else: if line.strip().startswith(COPY): raise ValueError   copy_subject (Strip V0), copy_word
                yield line; line = next_line
      yield line                                                     -- the last line is not checked for COPY
+   The statements between the source and the join loop are the list [pipeline] of stages, in data-flow
+   order; the shape of the join loop itself is fixed (the extractor accepts no other).
    The caller materialises the generator (list(...)), so an exception anywhere loses the whole output:
    the model returns [res (list line)].
 
-   dde_sentences(lines)   lines 128-140
+   dde_sentences(lines)
      text = the concatenation of the lines; pattern  ws* (digit digit) ws* (anything, lazy) period ws
      with DOTALL; finditer = leftmost, non-overlapping, a position where the pattern cannot match is skipped.
+     The number of digits, lazy / greedy, the terminator character and DOTALL are parameters
+     (sent_level_digits, sent_lazy, sent_term_char, sent_dotall).  No alternative of the pattern needs
+     backtracking into an earlier item: white space and digits are disjoint classes, and giving white space
+     back to the clause text never turns a failure into a match.
      [scan] walks the text: at each position [try_match]; after a match it skips the matched characters
      (the skip counter keeps the recursion structural, there is no fuel).
 
@@ -30,6 +43,7 @@
 From Coq Require Import NArith List Bool Arith.
 Import ListNotations.
 Require Import SR.Base.Res.
+Require Import SR.Gen.RefFormatParams.
 Open Scope N_scope.
 
 Definition line := list N.
@@ -103,40 +117,97 @@ Definition replace (old new s : line) : line :=
   | _ :: _ => replace_go old new 0 s
   end.
 
+(* the pairs replace_all goes through [replace_pairs]: all in list order, the first only, all reversed *)
+Definition select_pairs (repl : list (line * line)) : list (line * line) :=
+  match replace_pairs with
+  | 0 => repl
+  | 1 => firstn 1 repl
+  | _ => rev repl
+  end.
+
 (* replace_all: for old, new in replacing: line = line.replace(old, new) *)
 Definition replace_all (repl : list (line * line)) (s : line) : line :=
-  fold_left (fun acc p => replace (fst p) (snd p) acc) repl s.
+  fold_left (fun acc p => replace (fst p) (snd p) acc) (select_pairs repl) s.
 
 (* ---------------------------------------------------------------- reference_format *)
 
+(* vocabulary shared with Spec/RefFormat.v (literals; what the code uses is in Gen/RefFormatParams.v) *)
 Definition w_EJECT : line := [69; 74; 69; 67; 84].
 Definition w_SKIP1 : line := [83; 75; 73; 80; 49].
 Definition w_SKIP2 : line := [83; 75; 73; 80; 50].
 Definition w_SKIP3 : line := [83; 75; 73; 80; 51].
 Definition w_COPY : line := [67; 79; 80; 89].
-Definition directives : list line := [w_EJECT; w_SKIP1; w_SKIP2; w_SKIP3].
-
-Definition is_directive_word (w : line) : bool := existsb (leqb w) directives.
-
-Definition f_non_empty (l : line) : bool := nonempty (rstrip l).
-Definition f_non_directive (l : line) : bool := negb (is_directive_word (strip l)).
-Definition f_long (l : line) : bool := (7 <=? length l)%nat.
-Definition indicator (l : line) : N := nth 6 l 0.
-Definition area (l : line) : line := firstn 65 (skipn 7 l).       (* line[7:72] *)
-Definition to_card (l : line) : card := (indicator l, area l).
-Definition f_non_comment (c : card) : bool := negb ((fst c =? 42) || (fst c =? 68)).
-
-Definition cards (src : list line) : list card :=
-  filter f_non_comment (map to_card (filter f_long (filter f_non_directive (filter f_non_empty src)))).
-
 Definition starts_copy (l : line) : bool := is_prefix w_COPY (strip l).
+
+(* value of a string expression; a = V0, b = V1.  x[lo:hi] with 0 <= lo, hi *)
+Fixpoint seval (e : sexp) (a b : line) : line :=
+  match e with
+  | V0 => a
+  | V1 => b
+  | Strip x => strip (seval x a b)
+  | Lstrip x => lstrip (seval x a b)
+  | Rstrip x => rstrip (seval x a b)
+  | Slice lo hi x =>
+      let s := skipn lo (seval x a b) in
+      match hi with Some h => firstn (h - lo) s | None => s end
+  | Cat x y => seval x a b ++ seval y a b
+  end.
+
+(* what flows between two stages *)
+Inductive flow := Lines (ls : list line) | Cards (cs : list card).
+
+Definition replace_cards (repl : list (line * line)) (cs : list card) : list card :=
+  map (fun c => (fst c, replace_all repl (snd c))) cs.
+
+(* [repl = []] stands for both replacing=None and replacing=[] (the code tests truthiness): the
+   REPLACING stages sit in the true branch of that test, and with no pair they do nothing.
+   The extractor only emits stage lists whose kinds fit, and a Split whose column a KeepLong protects;
+   a stage applied to the wrong kind of flow leaves it alone. *)
+Definition run_stage (repl : list (line * line)) (st : stage) (f : flow) : flow :=
+  match st, f with
+  | KeepNonEmpty e, Lines ls => Lines (filter (fun l => nonempty (seval e l [])) ls)
+  | DropWords e ws, Lines ls => Lines (filter (fun l => negb (existsb (leqb (seval e l [])) ws)) ls)
+  | KeepLong n, Lines ls => Lines (filter (fun l => (n <=? length l)%nat) ls)
+  | Split i e, Lines ls => Cards (map (fun l => (nth i l 0, seval e l [])) ls)
+  | DropIndicators ks, Cards cs => Cards (filter (fun c => negb (existsb (N.eqb (fst c)) ks)) cs)
+  | ReplaceLines, Lines ls => Lines (map (replace_all repl) ls)
+  | ReplaceTexts, Cards cs => Cards (replace_cards repl cs)
+  | ReplacePerPair, Cards cs =>
+      match repl with
+      | [] => Cards cs
+      | _ => Cards (flat_map (fun c => map (fun p => (fst c, replace (fst p) (snd p) (snd c))) repl) cs)
+      end
+  | _, _ => f
+  end.
+
+Definition run_stages (repl : list (line * line)) (sts : list stage) (f : flow) : flow :=
+  fold_left (fun acc st => run_stage repl st acc) sts f.
+
+Definition out_cards (f : flow) : list card := match f with Cards cs => cs | Lines _ => [] end.
+
+Definition is_replace (st : stage) : bool :=
+  match st with ReplaceLines | ReplaceTexts | ReplacePerPair => true | _ => false end.
+
+(* the (indicator, text) pairs the join loop receives *)
+Definition pairs_in (src : list line) (repl : list (line * line)) : list card :=
+  out_cards (run_stages repl pipeline (Lines src)).
+
+(* ... and what it would receive without the REPLACING stage (the else branch of `if replacing`) *)
+Definition cards (src : list line) : list card :=
+  out_cards (run_stages [] (filter (fun st => negb (is_replace st)) pipeline) (Lines src)).
+
+(* the directive words of the DropWords stages *)
+Definition directives : list line :=
+  flat_map (fun st => match st with DropWords _ ws => ws | _ => [] end) pipeline.
+
+Definition copy_test (l : line) : bool := is_prefix copy_word (seval copy_subject l []).
 
 Fixpoint join (cur : line) (rest : list card) : res (list line) :=
   match rest with
   | [] => Ok [cur]
   | (i, t) :: r =>
-      if i =? 45 then join (cur ++ t) r
-      else if starts_copy cur then Err ValueError
+      if i =? cont_indicator then join (seval cont_join cur t) r
+      else if copy_test cur then Err ValueError
            else match join t r with
                 | Ok out => Ok (cur :: out)
                 | Err e => Err e
@@ -149,38 +220,74 @@ Definition join_all (cs : list card) : res (list line) :=
   | (_, t) :: r => join t r
   end.
 
-Definition replace_cards (repl : list (line * line)) (cs : list card) : list card :=
-  map (fun c => (fst c, replace_all repl (snd c))) cs.
-
-(* [repl = []] stands for both replacing=None and replacing=[] (the code tests truthiness) *)
 Definition reference_format (src : list line) (repl : list (line * line)) : res (list line) :=
-  join_all (replace_cards repl (cards src)).
+  join_all (pairs_in src repl).
 
 (* ---------------------------------------------------------------- dde_sentences *)
 
-(* lazy anything, then a period followed by white space: (clauses, text after the match) *)
+(* what the dot of the pattern accepts *)
+Definition dot_matches (c : N) : bool := sent_dotall || negb (c =? 10).
+
+Definition at_term (c : N) (t : line) : bool :=
+  (c =? sent_term_char) && (match t with w :: _ => is_ws w | [] => false end).
+
+(* lazy anything, then the terminator followed by white space: (clauses, text after the match) *)
 Fixpoint find_term (s : line) : option (line * line) :=
   match s with
   | [] => None
   | c :: t =>
-      if (c =? 46) && (match t with w :: _ => is_ws w | [] => false end) then Some ([], tl t)
-      else match find_term t with
-           | Some (a, r) => Some (c :: a, r)
-           | None => None
-           end
+      if at_term c t then Some ([], tl t)
+      else if dot_matches c then
+             match find_term t with
+             | Some (a, r) => Some (c :: a, r)
+             | None => None
+             end
+           else None
+  end.
+
+(* greedy anything: the LAST terminator that only dot-characters separate from the start *)
+Fixpoint find_term_last (s : line) : option (line * line) :=
+  match s with
+  | [] => None
+  | c :: t =>
+      let here := if at_term c t then Some ([], tl t) else None in
+      if dot_matches c then
+        match find_term_last t with
+        | Some (a, r) => Some (c :: a, r)
+        | None => here
+        end
+      else here
+  end.
+
+Definition find_body (s : line) : option (line * line) :=
+  if sent_lazy then find_term s else find_term_last s.
+
+(* n digits: (the digits, the text after them) *)
+Fixpoint take_digits (n : nat) (s : line) : option (line * line) :=
+  match n with
+  | O => Some ([], s)
+  | S k =>
+      match s with
+      | d :: r =>
+          if is_digit d then
+            match take_digits k r with
+            | Some (ds, rest) => Some (d :: ds, rest)
+            | None => None
+            end
+          else None
+      | [] => None
+      end
   end.
 
 (* one attempt of the pattern at the head of s: (level, clauses, text after the match) *)
 Definition try_match (s : line) : option (line * line * line) :=
-  match lstrip s with
-  | d1 :: d2 :: r =>
-      if is_digit d1 && is_digit d2 then
-        match find_term (lstrip r) with
-        | Some (cl, rest) => Some ([d1; d2], cl, rest)
-        | None => None
-        end
-      else None
-  | _ => None
+  match take_digits sent_level_digits (lstrip s) with
+  | Some (lv, r) =>
+      match find_body (lstrip r) with
+      | Some (cl, rest) => Some (lv, cl, rest)
+      | None => None
+      end
+  | None => None
   end.
 
 Fixpoint scan (skip : nat) (s : line) : list (line * line) :=
